@@ -216,6 +216,7 @@ SCENARIOS = {
     "store-to-store-index": _scenario_store_to_store_index,
     "store-to-store-index-jobs": _scenario_store_to_store_index_jobs,
     "store-to-store-index-wide": _scenario_store_to_store_index,
+    "store-to-store-expanded-wide": _scenario_store_to_store_expanded,
     "index-save-hardlink": _scenario_index_save_hardlink,
     "upload-staging": _scenario_upload_staging,
     "push-remote": _scenario_push_remote,
